@@ -158,9 +158,13 @@ type Runner struct {
 	// Poison: value.VerifSetPoison is on for this runner (discarded value objects are overwritten)
 	Poison            bool
 	afterFailedCommit bool
-	commitLaw         bool     // a law about COMMIT failed in this runner
-	ReloadEachAttempt bool     // ScanCancel: ROLLBACK before every attempt
-	pendingCreated    []string // tables CREATEd since the last COMMIT / ROLLBACK (their files exist, locked, uncommitted)
+	commitLaw         bool // a law about COMMIT failed in this runner
+	ReloadEachAttempt bool // ScanCancel: ROLLBACK before every attempt
+	// SessionObjs: a variable, a function, an open cursor and the failing-body functions vfa…vfd were declared in the block
+	// that runs the statements; a failed statement must leave them all in place
+	SessionObjs    bool
+	sessTag        string
+	pendingCreated []string // tables CREATEd since the last COMMIT / ROLLBACK (their files exist, locked, uncommitted)
 }
 
 var wrapSeq int64
@@ -1470,6 +1474,93 @@ func (r *Runner) genRename(t *Tab, f *Fault) *Stmt {
 	return s
 }
 
+// FnBodies: the functions of SessionSetup
+var FnBodies = []string{"vfa", "vfb", "vfc", "vfd"}
+
+// genFnFail: a data-changing statement one of whose expressions (VALUES, SET, WHERE, DEFAULT) calls a user-defined
+// function whose body fails: the statements nested in the function (CREATE TABLE, DML, DECLARE) must leave nothing behind —
+// no file, no lock file, no table, no temporary table; the outer statement fails.  Law-only (the model is not told).
+func (r *Runner) genFnFail(t *Tab) *Stmt {
+	g := r.G
+	if !r.SessionObjs {
+		return nil
+	}
+	fn := FnBodies[g.Intn(len(FnBodies))]
+	dc := t.dataCols()
+	s := &Stmt{Kind: "fnfail", Targets: []string{t.Name}, Fault: &Fault{Kind: fn}, Wrap: "plain"}
+	pos := g.Intn(5)
+	if len(dc) == 0 || (pos == 3 && len(r.snap(t.Name).Rows) == 0) {
+		pos = 0 // (a DEFAULT is not evaluated for a table without records: the ALTER would succeed)
+	}
+	switch pos {
+	case 0:
+		s.SQL = fmt.Sprintf("INSERT INTO %s (id) VALUES (%s(%d))", t.Name, fn, t.NextID+7)
+	case 1:
+		s.SQL = fmt.Sprintf("UPDATE %s SET %s = %s(1) WHERE TRUE", t.Name, dc[g.Intn(len(dc))], fn)
+	case 2:
+		s.SQL = fmt.Sprintf("DELETE FROM %s WHERE %s(id) = 0", t.Name, fn)
+	case 3:
+		t.fresh++
+		s.SQL = fmt.Sprintf("ALTER TABLE %s ADD (n%d DEFAULT %s(id))", t.Name, t.fresh, fn)
+	default:
+		s.SQL = fmt.Sprintf("REPLACE INTO %s (id, %s) USING (id) VALUES (%s(0), 1)", t.Name, dc[0], fn)
+	}
+	return s
+}
+
+// ClauseFaults: a SELECT that fails in exactly one clause position
+var ClauseFaults = []struct{ Name, Tail string }{
+	{"from", "FROM nosuch_zz"},
+	{"where", "FROM %[1]s WHERE 1 / (id - id) = 1"},
+	{"groupby", "FROM %[1]s GROUP BY id, 1 / (id - id)"},
+	{"having", "FROM %[1]s GROUP BY id HAVING 1 / (id - id) = 1"},
+	{"select", "FROM %[1]s WHERE 2 / (id - id) IS NULL OR TRUE ORDER BY 1 / (id - id)"},
+	{"orderby", "FROM %[1]s ORDER BY 1 / (id - id)"},
+	{"limit", "FROM %[1]s LIMIT 'x'"},
+	{"offset", "FROM %[1]s LIMIT 1 OFFSET 'two'"},
+	{"offsetvar", "FROM %[1]s OFFSET @nosuchvar"},
+	{"setoperand", "FROM %[1]s UNION SELECT 1 FROM nosuch_zz"},
+	{"with", ""},
+}
+
+// genClauseFail: INSERT…SELECT / REPLACE…SELECT / CREATE TABLE AS / a scalar sub-query in UPDATE whose SELECT fails in one
+// clause (FROM, WHERE, GROUP BY, HAVING, ORDER BY, LIMIT, OFFSET, set operand, WITH).  The source needs two records.
+func (r *Runner) genClauseFail(t, src *Tab) *Stmt {
+	g := r.G
+	if len(r.snap(src.Name).Rows) < 2 {
+		return nil
+	}
+	c := ClauseFaults[g.Intn(len(ClauseFaults))]
+	sel := "SELECT id " + strings.ReplaceAll(c.Tail, "%[1]s", src.Name)
+	with := ""
+	if c.Name == "with" {
+		with = "WITH vw AS (SELECT 1 AS x FROM nosuch_zz) "
+		sel = fmt.Sprintf("SELECT id FROM %s WHERE id IN (SELECT x FROM vw)", src.Name)
+	}
+	s := &Stmt{Kind: "clausefail", Targets: []string{t.Name}, Fault: &Fault{Kind: c.Name}, Wrap: "plain"}
+	dc := t.dataCols()
+	switch k := g.Intn(4); {
+	case k == 0:
+		s.SQL = fmt.Sprintf("%sINSERT INTO %s (id) %s", with, t.Name, sel)
+	case k == 1:
+		s.SQL = fmt.Sprintf("%sREPLACE INTO %s (id) USING (id) %s", with, t.Name, sel)
+	case k == 2 && len(dc) > 0 && c.Name != "setoperand":
+		s.SQL = fmt.Sprintf("%sUPDATE %s SET %s = (%s) WHERE TRUE", with, t.Name, dc[0], strings.Replace(sel, "LIMIT 'x'", "LIMIT 'x'", 1))
+		if len(r.snap(t.Name).Rows) == 0 {
+			return nil
+		}
+	default:
+		r.created++
+		s.SQL = fmt.Sprintf("%sCREATE TABLE `tc%d.csv` (id) AS %s", with, r.created, sel)
+		s.Targets = []string{}
+		if with != "" {
+			s.SQL = fmt.Sprintf("%sINSERT INTO %s (id) %s", with, t.Name, sel)
+			s.Targets = []string{t.Name}
+		}
+	}
+	return s
+}
+
 // BadAttrs: ALTER TABLE … SET statements that must fail: an invalid value for every attribute, values of the wrong
 // type, an unknown attribute; `combo`: values that are valid by themselves but not for the table's format.
 var BadAttrs = []string{
@@ -1564,7 +1655,7 @@ func (r *Runner) genCreate(t *Tab, f *Fault) *Stmt {
 func (r *Runner) Gen(fault bool) *Stmt {
 	g := r.G
 	kinds := []string{"insert", "insert", "insert", "insertsel", "insertsel", "replacesel", "replace", "replace", "replace", "update", "update", "update",
-		"delete", "delete", "updatem", "updatem", "deletem", "addcol", "addcol", "dropcol", "rename", "create", "setattr"}
+		"delete", "delete", "updatem", "updatem", "deletem", "addcol", "addcol", "dropcol", "rename", "create", "setattr", "fnfail", "fnfail", "clausefail", "clausefail"}
 	for tries := 0; tries < 80; tries++ {
 		t := r.Tabs[g.Intn(len(r.Tabs))]
 		var o *Tab
@@ -1640,6 +1731,16 @@ func (r *Runner) Gen(fault bool) *Stmt {
 			s = r.genRename(t, f)
 		case "setattr":
 			s = r.genSetAttr(t, f)
+		case "fnfail":
+			if f == nil {
+				continue
+			}
+			s = r.genFnFail(t)
+		case "clausefail":
+			if f == nil || o == nil {
+				continue
+			}
+			s = r.genClauseFail(t, o)
 		case "create":
 			if f == nil && g.Intn(3) > 0 {
 				continue
@@ -1668,6 +1769,8 @@ var FaultsOf = map[string][]string{
 	"rename":     {"dup", "field"},
 	"create":     {"dup", "exists", "casecoll", "casecoll", "subq", "where", "len", "dupas"},
 	"setattr":    {"value", "value", "combo", "name"},
+	"fnfail":     {"fn"},
+	"clausefail": {"clause"},
 }
 
 // ---------- running ----------
@@ -1736,6 +1839,7 @@ func (r *Runner) Exec(st *Stmt, cancelAt int64) *Outcome {
 	before := r.snapAll()
 	marksBefore := Marks(r.Pr)
 	filesBefore := r.listing()
+	sessBefore := r.sessionState()
 	attrsBefore := ""
 	if st.Kind == "setattr" {
 		attrsBefore = r.Attrs(r.Pr, st.Targets[0])
@@ -1847,6 +1951,12 @@ func (r *Runner) Exec(st *Stmt, cancelAt int64) *Outcome {
 			rp["marks_before"], rp["marks_after"] = marksBefore, m
 			o.Law("failed_statement_changed_marks", rp)
 			out.Failed = append(out.Failed, "failed_statement_changed_marks")
+		}
+		if sa := r.sessionState(); sa != sessBefore {
+			rp := replay()
+			rp["session_objects_before"], rp["session_objects_after"] = sessBefore, sa
+			o.Law("failed_statement_lost_session_object", rp)
+			out.Failed = append(out.Failed, "failed_statement_lost_session_object")
 		}
 		if st.Kind == "setattr" {
 			if a := r.Attrs(r.Pr, st.Targets[0]); a != attrsBefore {
@@ -2012,6 +2122,44 @@ func FileText(dir, name string) (string, error) {
 // Commit commits on the main (and twin) processor, compares the committed state with the model, and re-sends
 // the file-backed tables (they are re-read from the files, as text, by the following statements).
 func (r *Runner) Commit() { r.CommitAt(0) }
+
+// SessionSetup declares, on the main and the control processor, the session objects whose survival is checked after
+// failed statements, and the functions whose bodies fail when they are called from inside a data-changing statement:
+// vfa: CREATE TABLE with a duplicate column; vfb: a data-changing statement (refused while another one is running);
+// vfc: CREATE TABLE … AS SELECT from a table that does not exist; vfd: DECLARE VIEW + INSERT, then a division by zero.
+func (r *Runner) SessionSetup(tag string) {
+	r.sessTag = tag
+	first := r.Tabs[0].Name
+	prog := "VAR @vkeep := 7; DECLARE vkeepfn FUNCTION (@n) AS BEGIN RETURN @n + 1; END; " +
+		"DECLARE vcur CURSOR FOR SELECT 1 FROM DUAL; OPEN vcur; " +
+		"DECLARE vfa FUNCTION (@n) AS BEGIN CREATE TABLE `tq" + tag + "a.csv` (a, b, a); RETURN @n; END; " +
+		"DECLARE vfb FUNCTION (@n) AS BEGIN INSERT INTO " + first + " (id) VALUES (999999); RETURN @n; END; " +
+		"DECLARE vfc FUNCTION (@n) AS BEGIN CREATE TABLE `tq" + tag + "c.csv` (a, b) AS SELECT 1, 2 FROM nosuch_zz; RETURN @n; END; " +
+		"DECLARE vfd FUNCTION (@n) AS BEGIN DECLARE vzz VIEW (x); INSERT INTO vzz VALUES (1); RETURN @n / 0; END;"
+	for _, pr := range []*hc.Proc{r.Pr, r.Twin} {
+		if pr == nil {
+			continue
+		}
+		if _, err := pr.Exec(prog); err != nil {
+			r.O.Law("setup_failed", map[string]string{"sql": prog, "error": err.Error()})
+			return
+		}
+	}
+	r.SessionObjs = true
+}
+
+// sessionState: the variable, the function, the cursor (open, its record count) as one line, or the error that says
+// one of them is gone
+func (r *Runner) sessionState() string {
+	if !r.SessionObjs {
+		return ""
+	}
+	out, err := r.Pr.Exec("SELECT @vkeep, vkeepfn(2), CURSOR vcur IS OPEN, CURSOR vcur COUNT FROM DUAL;")
+	if err != nil {
+		return "error: " + err.Error()
+	}
+	return strings.Join(strings.Fields(out), " ")
+}
 
 // Attrs: the attribute listing of a table (SHOW FIELDS: format, delimiter, encoding, line break, header, … and the
 // field names), without the Path and Status lines.
@@ -3068,5 +3216,97 @@ func LoadFuncCorpus(g *hc.Gen, o *hc.Out, root string) {
 		}
 		r.CompareTwin("load-function corpus: after " + st.SQL)
 	}
+	r.Commit()
+}
+
+// NestedFailCorpus (c08, first on every run): (1) every failing-body function (CREATE TABLE with a duplicate column,
+// a nested data-changing statement, CREATE TABLE AS SELECT from a missing table, DECLARE VIEW + division by zero) called
+// from VALUES / SET / WHERE / DEFAULT / REPLACE VALUES of statements on a file-backed table, a temporary table and
+// STDIN; (2) INSERT…SELECT, REPLACE…SELECT, CREATE TABLE AS and a scalar sub-query in UPDATE whose SELECT fails in
+// each clause position.  After every statement: all tables (temporary and STDIN included), the marks, the directory
+// listing with lock files, and the session objects (variable, function, open cursor) are those of before.
+func NestedFailCorpus(g *hc.Gen, o *hc.Out, root string) {
+	rows := [][]int{{0, 5}, {1, 6}, {2, 7}}
+	r := newFixedRunner(g, o, root, "corpus-nestedfail", []fixedTab{
+		{"f1", true, []string{"id", "a"}, rows}, {"m1", false, []string{"id", "p"}, rows},
+		{"stdin", false, []string{"id", "s"}, rows}, {"f2", true, []string{"id", "e"}, rows},
+	})
+	defer r.Close()
+	r.SessionSetup("corpus")
+	if !r.SessionObjs {
+		return
+	}
+	run := func(st *Stmt) bool {
+		out := r.Exec(st, 0)
+		o.Count("corpus:nestedfail")
+		if out.Err == nil {
+			o.Law("corpus_statement_did_not_fail", map[string]string{"sql": st.SQL})
+			return false
+		}
+		o.NonTrivial("nestedfail:" + st.Kind + ":" + fk(st.Fault) + ":" + strings.Join(st.Targets, "+") + fmt.Sprintf(":E%d", ErrNum(out.Err)))
+		return len(out.Failed) == 0
+	}
+	law := func(kind, fault, sql string, targets ...string) *Stmt {
+		return &Stmt{Kind: kind, SQL: sql, Targets: targets, Wrap: "plain", Fault: &Fault{Kind: fault}}
+	}
+	for _, t := range []string{"f1", "m1", "stdin"} {
+		c := r.Tab(t).Cols[1]
+		for _, fn := range FnBodies {
+			for _, sql := range []string{
+				fmt.Sprintf("INSERT INTO %s (id, %s) VALUES (%s(9), 1)", t, c, fn),
+				fmt.Sprintf("UPDATE %s SET %s = %s(1) WHERE id < 2", t, c, fn),
+				fmt.Sprintf("DELETE FROM %s WHERE %s(id) = 0", t, fn),
+				fmt.Sprintf("ALTER TABLE %s ADD (nx DEFAULT %s(id))", t, fn),
+				fmt.Sprintf("REPLACE INTO %s (id, %s) USING (id) VALUES (%s(0), 1), (8, 2)", t, c, fn),
+				fmt.Sprintf("INSERT INTO %s (id, %s) SELECT id + 20, %s(e) FROM f2", t, c, fn),
+			} {
+				if !run(law("fnfail", fn, sql, t)) {
+					return
+				}
+			}
+		}
+		for _, cf := range ClauseFaults {
+			sel := "SELECT id " + strings.ReplaceAll(cf.Tail, "%[1]s", "f2")
+			with := ""
+			if cf.Name == "with" {
+				with = "WITH vw AS (SELECT 1 AS x FROM nosuch_zz) "
+				sel = "SELECT id FROM f2 WHERE id IN (SELECT x FROM vw)"
+			}
+			progs := []string{
+				fmt.Sprintf("%sINSERT INTO %s (id) %s", with, t, sel),
+				fmt.Sprintf("%sREPLACE INTO %s (id) USING (id) %s", with, t, sel),
+			}
+			if with == "" {
+				progs = append(progs, fmt.Sprintf("CREATE TABLE `tcc_%s_%s.csv` (id) AS %s", t, cf.Name, sel))
+				if cf.Name != "setoperand" {
+					progs = append(progs, fmt.Sprintf("UPDATE %s SET %s = (%s) WHERE TRUE", t, c, sel))
+					progs = append(progs, fmt.Sprintf("DELETE FROM %s WHERE id IN (%s)", t, sel))
+				}
+			}
+			for _, sql := range progs {
+				tg := []string{t}
+				if strings.HasPrefix(sql, "CREATE") {
+					tg = []string{}
+				}
+				if !run(law("clausefail", cf.Name, sql, tg...)) {
+					return
+				}
+			}
+		}
+		r.CompareTwin("nested-failure corpus: " + t)
+	}
+	// the transaction is still usable: ordinary statements, then COMMIT compared with the control run
+	for _, t := range []string{"f1", "m1", "stdin"} {
+		st := keepFirst(r.Tab(t), 2)
+		out := r.Exec(st, 0)
+		if out.Err == nil {
+			r.TwinExec(st)
+		}
+		if out.Err != nil || len(out.Failed) > 0 {
+			o.Law("corpus_statement_failed", map[string]string{"sql": st.SQL, "error": fmt.Sprint(out.Err)})
+			return
+		}
+	}
+	r.CompareTwin("nested-failure corpus: before COMMIT")
 	r.Commit()
 }
